@@ -257,6 +257,7 @@ def run(fx, chk, tier):
     cg = callgraph(fx)
     ents = muxer_entries(fx)
     clo = cg.closure(ents)
+    row_sinks, row_common = {}, {}
     for adt, field, accs in ROWS:
         a = fx.adt_short(adt)
         if not chk.anchor("R-ROW", "%s.%s" % (adt, field), a and any(f["name"] == field for f in a["variants"][0]["fields"])):
@@ -276,6 +277,7 @@ def run(fx, chk, tier):
                     seeds.append(x)
             sinks |= new
         sink_s = {"%s.%s" % x for x in sinks}
+        row_sinks[(adt, field)] = sink_s
         for st, name in accs:
             fn = fx.impl_fn(st, None, name)
             key = "%s.%s->%s::%s" % (adt, field, st.split("<")[0], name)
@@ -283,9 +285,24 @@ def run(fx, chk, tier):
                 continue
             rd = c09.fields_read(fx, cg, fn["id"])
             common = sorted(x for x in (sink_s & rd) if is_leaf(fx, x))
+            row_common[(adt, field)] = set(common) | row_common.get((adt, field), set())
             chk.require(bool(common), "R-ROW", key, "stored into and read from %s" % common,
                         "%s.%s is stored into %s, but %s::%s computes its result from %s: the accessor does not depend on the configured value" % (
                             adt, field, sorted(sink_s) or "no box field", st, name, sorted(x for x in rd if not x.startswith(("Mp4Track.", "TrakBox.", "MdiaBox.", "MinfBox.", "StblBox.")))[:8]), site_of(fn))
+    # ---------------- R-NOMIX: the box field that carries one configured value to its accessor carries no other one
+    chk.rule("R-NOMIX", "a box field through which a configuration field reaches its accessor receives the value of no other field of the same configuration struct (the accessor returns that configured value, not a blend: e.g. the ftyp compatible-brand list is the configured list, without the major brand folded in)")
+    nmix = 0
+    for (adt, field), common in sorted(row_common.items()):
+        for (adt2, field2), sk in sorted(row_sinks.items()):
+            if adt2 != adt or field2 == field:
+                continue
+            # carriers are fields of boxes / descriptors; single-field value wrappers (FixedPointU16.0, FourCC.value) are types, not places
+            shared = sorted(x for x in (common & sk) if fx.impl_fn(x.split(".")[0], "Mp4Box", "box_size") is not None or x.split(".")[0].endswith("Descriptor"))
+            # two fields that legitimately share a carrier today are listed here with the reason (none on today's tree)
+            nmix += 1
+            chk.require(not shared, "R-NOMIX", "%s.%s<-%s" % (adt, field, field2), "carriers of %s receive nothing from %s" % (field, field2),
+                        "%s.%s also flows into %s, the box field through which %s.%s reaches its accessor: the accessor no longer returns the configured %s alone" % (adt, field2, shared, adt, field, field), site_of(fx.impl_fn("Mp4Writer<W>", None, "write_start") or fx.impl_fn("Mp4TrackWriter", None, "new")))
+    chk.floor("R-NOMIX", "ordered pairs of configuration fields", nmix, 20)
     # ---------------- R-KIND
     new = fx.impl_fn("Mp4TrackWriter", None, "new")
     mt = fx.impl_fn("Mp4Track", None, "media_type")
